@@ -102,3 +102,78 @@ Definition acc_ok (i : acc_in) (o : N) : bool :=
   | _ => if fails || g || d || existsb (fun c => memN c cursed) srcs then negb (N.eqb o 1) else true
   end.
 Definition acc_judge := judge acc_model N.eqb acc_ok (fun _ => 0%N).
+
+(* ================= plugin level: Plugin.Observation in every state / phase, curse changing between rounds ================= *)
+(* ---- part cyc_commit: commit.Plugin.Observation (real Plugin, real merkleroot.Processor, real chain support) ----
+   input: state the round is in (1 SelectingRangesForReport, 2 BuildingReport, 3 WaitingForReportTransmission),
+          sup (0/1 destination supported, 2 home chain failing), known sources (None = home chain failing), remote,
+          next-seq reader mode, chains of the ranges selected by the previous outcome (state 2)
+   output: decoded observation: off-ramp next numbers, chains for which a merkle root was observed (ascending) *)
+Definition cycc_in := (N * N * option (list N) * remote * N * list N)%type.
+Definition cycc_out := (list (N * N) * list N)%type.
+Definition cycc_model (i : cycc_in) : cycc_out :=
+  let '(st, sup, known, r, mode, sel) := i in
+  if N.eqb st 2
+  then ([], if N.eqb sup 2 then [] else sortN sel)     (* roots of the agreed ranges: not curse gated in the code *)
+  else (observe_offramp sup known (match known with Some all => answer r all | None => None end) (nextseq_of mode), []).
+Definition cycc_oeqb (a b : cycc_out) : bool := list_eqb pN_eqb (fst a) (fst b) && list_eqb N.eqb (snd a) (snd b).
+(* C15_no_observe_commit / C15_source_left_out_commit on the decoded observation, in every state; and the
+   BuildingReport round reads no off-ramp numbers at all *)
+Definition cycc_ok (i : cycc_in) (o : cycc_out) : bool :=
+  let '(st, sup, known, r, mode, sel) := i in
+  let '(fails, g, d, cursed) := r in
+  let off := fst o in
+  (if fails || g || d then match off with [] => true | _ => false end
+   else forallb (fun kv => negb (memN (fst kv) cursed)) off) &&
+  (if N.eqb st 2 then match off with [] => true | _ => false end else true) &&
+  (* roots are observed for agreed ranges only *)
+  forallb (fun c => memN c sel) (snd o).
+Definition cycc_judge := judge cycc_model cycc_oeqb cycc_ok (fun _ => 0%N).
+
+(* ---- part cyc_exec: execute.Plugin.Observation (real Plugin, real chain support) ----
+   input: phase (1 GetCommitReports, 2 GetMessages, 3 Filter), sup, known, remote,
+          phase 1: commit reports on the destination (chain, count), None = reader error;
+          phase 2/3: pending commit reports of the previous outcome (chain, count)
+   output: None = error, else (commit reports (chain, count), messages (chain, count), chains with nonces) *)
+Definition cyce_in := (N * N * option (list N) * remote * option (list (N * N)))%type.
+Definition cyce_out := option (list (N * N) * list (N * N) * list N).
+Definition msgs_per_report : N := 10.
+Definition cyce_model (i : cyce_in) : cyce_out :=
+  let '(ph, sup, known, r, pend) := i in
+  if N.eqb ph 1 then
+    match exec_observe sup known (match known with Some all => answer r all | None => None end) pend with
+    | Ok (Some g) => Some (g, [], [])
+    | Ok None => Some ([], [], [])
+    | _ => None
+    end
+  else
+    let p := match pend with Some p => p | None => [] end in
+    if N.eqb sup 2 then None
+    else if N.eqb ph 2 then
+      (* GetMessages: the agreed reports and their messages, whatever the curse state is now (no re-check in the code) *)
+      Some (p, map (fun kv => (fst kv, (snd kv * msgs_per_report)%N)) p, [])
+    else
+      (* Filter: nonces for the sources of the agreed reports, destination readers only *)
+      Some ([], [], if N.eqb sup 1 then map fst p else []).
+Definition cyce_oeqb : cyce_out -> cyce_out -> bool :=
+  option_eqb (pair_eqb (pair_eqb (list_eqb pN_eqb) (list_eqb pN_eqb)) (list_eqb N.eqb)).
+(* phase 1: C15_no_observe_exec / C15_source_left_out_exec on the decoded observation.
+   phases 2 and 3 read nothing curse-gated: they may only repeat commit reports the previous outcome agreed on *)
+Definition cyce_ok (i : cyce_in) (o : cyce_out) : bool :=
+  let '(ph, sup, known, r, pend) := i in
+  let '(fails, g, d, cursed) := r in
+  match o with
+  | None => true
+  | Some (cr, ms, ns) =>
+      if N.eqb ph 1 then
+        (match ms, ns with [], [] => true | _, _ => false end) &&
+        (if fails || g || d then match cr with [] => true | _ => false end
+         else forallb (fun kv => negb (memN (fst kv) cursed) &&
+                                 match known with Some all => memN (fst kv) all | None => false end) cr)
+      else
+        let p := match pend with Some p => p | None => [] end in
+        forallb (fun kv => existsb (pN_eqb kv) p) cr &&
+        forallb (fun kv => memN (fst kv) (map fst p)) ms &&
+        forallb (fun c => memN c (map fst p)) ns
+  end.
+Definition cyce_judge := judge cyce_model cyce_oeqb cyce_ok (fun _ => 0%N).
